@@ -31,12 +31,16 @@
         mark on it in either state ([clean_all]), both calls return (no Abort: C02 compare_total), SP best chain
         determined by the reference counts.  Finalization is outside the POP model (the TIP_IS_FINAL short-cuts);
       * C01_verdict_without_clean_premise_refuted: without the premise the verdict statement is false on the model
-        (cached BLOCK_FAILED_POP: 1 vs 0 when no keystone boundary is crossed) = finding C01:verdict-0-vs-1-cached-invalid.
+        (cached BLOCK_FAILED_POP: 1 vs 0 when no keystone boundary is crossed) = finding C01:verdict-0-vs-1-cached-invalid;
+      * C01_unexec_keeps_order / C01_unexec_under_later: un-executing a command from ANY state (comparePopScore unapplies
+        the loser UNDER the still applied winner: not LIFO) erases its item in place, the other items (e.g. the VTB ids
+        of one VBK block) keep their relative order; C01_swap_and_pop_keeps_order_refuted: a removal that moves the
+        newest item into the freed slot does not (checked on the implementation: ordered VTB ids, history vs twin).
     The twin oracle on the implementation (history vs fresh instance: POP projection, getPopPayout, comparePopScore
     against shown candidates) still checks payouts and verdicts end to end. *)
 From Coq Require Import List ZArith NArith Bool Permutation.
 From VB Require Import Pop.SmDefs Pop.SmProofs Pop.SmWf Pop.SmCmp Pop.SmTruth Pop.C01Compose Pop.C01Verdict Pop.C01Fork Pop.C01Alone
-     Pop.C01Outer Pop.C01Full Pop.C01Examples.
+     Pop.C01Outer Pop.C01Full Pop.C01Examples Pop.SmOrder.
 From VB Require Rewards.CalcDefs Rewards.BoundsDefs Score.CInt Score.CmpDefs.
 Import ListNotations.
 
@@ -248,3 +252,27 @@ Theorem C01_verdict_without_clean_premise_refuted :
   end.
 Proof. exact verdict_without_clean_premise_refuted. Qed.
 Print Assumptions C01_verdict_without_clean_premise_refuted.
+
+Theorem C01_unexec_keeps_order : forall c p,
+  match item_of c with
+  | Some x => others x (cunexec c p) = others x p /\
+              (mem x p = true -> exists l1 y l2, p = l1 ++ y :: l2 /\ item_eqb x y = true /\ mem x l1 = false /\
+                                                 cunexec c p = l1 ++ l2)
+  | None => cunexec c p = p
+  end.
+Proof. exact cunexec_keeps_order. Qed.
+Print Assumptions C01_unexec_keeps_order.
+
+Theorem C01_unexec_under_later : forall c p p' later,
+  cexec c p = Some p' -> (forall x, item_of c = Some x -> mem x later = false) ->
+  cunexec c (later ++ p') = later ++ p.
+Proof. exact cunexec_under_later. Qed.
+Print Assumptions C01_unexec_under_later.
+
+Theorem C01_swap_and_pop_keeps_order_refuted :
+  let vA := IEnd 1 10 21 in let v1 := IEnd 2 10 22 in let v2 := IEnd 3 10 23 in
+  let p := [v2; v1; vA] in
+  remove1 vA p = [v2; v1] /\ others vA (remove1 vA p) = others vA p /\
+  remove_swap vA p = [v1; v2] /\ others vA (remove_swap vA p) <> others vA p.
+Proof. exact swap_and_pop_keeps_order_refuted. Qed.
+Print Assumptions C01_swap_and_pop_keeps_order_refuted.
